@@ -31,29 +31,36 @@ BadMetrics == { M(1, 1, 1, 0, 0), M(4, 4, 1, 0, 0) }
 
 \* ---- real constants
 R0 == 86400000
-RMetrics   == { M(1, 1, 1, 0, 0), M(2, 5, 2, 0, 0), M(3, 60, 1, 2, R0 + 30), M(4, 15, 2, 1, R0 - 45),
-                M(5, 1, 2, 1, R0 + 2), M(6, 2, 1, 0, 0), M(7, 30, 1, 0, 0) }
+RMetrics   == { M(1, 1, 1, 0, 0), M(2, 5, 2, 0, 0), M(3, 60, 1, 2, R0 + 60), M(4, 15, 2, 1, R0 + 15),
+                M(5, 1, 2, 1, R0 + 2), M(6, 2, 1, 0, 0), M(7, 30, 1, 0, 0),
+                \* 50..69 / 70..89: the driver makes these hardware metrics (resolution configured in the shard)
+                M(58, 5, 1, 0, 0), M(72, 20, 2, 1, R0 + 20) }
 RTicks     == { 0 - 1, 0, 1, 2, 3, 5, 6, 7, 60, 124, 125, 126, 127, 128, 129, 131, 255, 256, 257, 400 }
 ROffs      == { 0 - 300, 0 - 130, 0 - 126, 0 - 125, 0 - 61, 0 - 59, 0 - 8, 0 - 7, 0 - 6, 0 - 5, 0 - 4,
                 0 - 3, 0 - 2, 0 - 1, 0, 1, 2, 3, 4, 5, 6, 100 }
-\* exhaustive export with the real constants: boundary alphabet
-BMetrics   == { M(1, 1, 1, 0, 0), M(3, 60, 1, 2, R0 + 30) }
+\* exhaustive export with the real constants: boundary alphabet.  The start instant B0 makes
+\* CurrentTime + FutureSlots a multiple of 60, the tightest alignment of the ring: a 60-second row
+\* with spread index 59 clamped to CurrentTime+3 lands QLen-1 slots ahead of a SendTime lagging by 5
+B0 == R0 + 57
+BMetrics   == { M(1, 1, 1, 0, 0), M(3, 60, 1, 2, R0 + 60), M(5, 1, 2, 1, B0 + 1) }
 BTicks     == { 1, 7, 130 }
 BOffs      == { 0 - 7, 0, 4 }
-BMetrics2  == { M(1, 1, 1, 0, 0), M(3, 60, 1, 2, R0 + 30), M(2, 5, 2, 0, 0), M(5, 1, 2, 1, R0 + 2) }
+BMetrics2  == { M(1, 1, 1, 0, 0), M(3, 60, 1, 2, R0 + 60), M(2, 5, 2, 0, 0), M(5, 1, 2, 1, B0 + 1) }
 BTicks2    == { 0, 1, 2, 7, 130 }
 BOffs2     == { 0 - 126, 0 - 7, 0 - 1, 0, 3, 4 }
 
 (* exhaustive export with the real constants, shaped so that every behaviour is worth replaying:
    start state (lag of SendTime, channel occupied), a clock step, a flush or an event, an event,
-   then a flush / consume - all combinations over the boundary alphabet *)
+   then a flush / consume / shutdown - all combinations over the boundary alphabet *)
 BehNext ==
     LET n == Len(hist) IN
     /\ n < MaxOps
     /\ \/ n = 1 /\ \E d \in Ticks, hf \in BOOLEAN : Tick(d, hf)
        \/ n = 2 /\ ((\E s \in Shards : Flush(s)) \/ FlushAll \/ EventChoice)
        \/ n = 3 /\ EventChoice
-       \/ n >= 4 /\ ((\E s \in Shards : Flush(s)) \/ FlushAll \/ (\E s \in Shards : Consume(s)))
+       \/ n = 4 /\ ((\E s \in Shards : Flush(s)) \/ FlushAll \/ (\E s \in Shards : Consume(s)) \/ Stop)
+       \/ n = 5 /\ FlushAllData
+ExportBeh == IF Len(hist') >= 6 \/ (Len(hist') = 5 /\ hist'[5].a # "Stop") THEN PrintT(<<"BEH", ToJson(hist')>>) ELSE TRUE
 
 (* simulation: TLC evaluates every disjunct of the next-state relation and picks uniformly among the
    successors, so the action class is drawn first (weights below), then one random representative of
